@@ -453,9 +453,56 @@ let run_shell (id : string) (rev : string) (fields : sexp list) =
     | _ -> failwith "bad revision" in
   Printf.printf "%s\tSHELL\t%s\n" id (hex_of_bytes (utf8_encode out))
 
+(* ------------------------------------------------------------------ Complete::complete on explicit hints (C14) *)
+let op_of_sexp = function
+  | L [A "file"; m] -> OpFile (opt_chars m)
+  | L [A "dir"; m] -> OpDir (opt_chars m)
+  | L [A "raw"; b; z; f; e] -> OpRaw (chars_of b, chars_of z, chars_of f, chars_of e)
+  | L [A "nothing"] -> OpNothing
+  | _ -> failwith "bad op"
+let rec nat_of_int (i : int) : nat = if i <= 0 then O else S (nat_of_int (i - 1))
+let short_opt = function A "-" -> None | A cp -> Some (n_of_int (int_of_string cp)) | _ -> failwith "bad short"
+let flag01 = function A "0" -> false | _ -> true
+let show_str (s : str) = hex_of_bytes (utf8_encode s)
+let show_ostr = function None -> "-" | Some s -> show_str s
+let show_op = function
+  | OpFile m -> "file:" ^ show_ostr m
+  | OpDir m -> "dir:" ^ show_ostr m
+  | OpRaw (b, z, f, e) -> Printf.sprintf "raw:%s:%s:%s:%s" (show_str b) (show_str z) (show_str f) (show_str e)
+  | OpNothing -> "nothing"
+
+let run_comps (id : string) (fields : sexp list) =
+  let extra d g h = { ce_depth = nat_of_int (int_of_string d); ce_group = opt_chars g; ce_help = opt_chars h } in
+  let hints = match find_field "hints" fields with
+    | Some l -> List.concat_map (function
+        | L [A "flag"; A d; g; h; s; lo] ->
+          (match short_opt s, opt_chars lo with None, None -> [] | sh, l -> [CoFlag (extra d g h, sh, l)])
+        | L [A "argument"; A d; g; h; s; lo; mv] ->
+          (match short_opt s, opt_chars lo with None, None -> [] | sh, l -> [CoArgument (extra d g h, sh, l, chars_of mv)])
+        | L [A "command"; A d; g; h; name; s] -> [CoCommand (extra d g h, chars_of name, short_opt s)]
+        | L [A "value"; A d; g; h; body; a] -> [CoValue (extra d g h, chars_of body, flag01 a)]
+        | L [A "meta"; A d; g; h; m; a] -> [CoMeta (extra d g h, chars_of m, flag01 a)]
+        | L [A "shell"; A d; g; h; op; a] -> [CoShell (extra d g h, op_of_sexp op, flag01 a)]
+        | _ -> failwith "bad hint") l
+    | None -> [] in
+  let arg = match find_field "arg" fields with Some [h] -> chars_of h | _ -> [] in
+  let pos = match find_field "pos" fields with Some [a] -> flag01 a | _ -> false in
+  let named = match find_field "named" fields with Some [a] -> flag01 a | _ -> false in
+  let prefix = match find_field "prefix" fields with
+    | Some [L [A "s"; c]] -> (match short_opt c with Some c -> PxShort c | None -> PxNA)
+    | Some [L [A "l"; l]] -> PxLong (chars_of l)
+    | _ -> PxNA in
+  let (items, ops) = complete hints arg pos named prefix in
+  let show_item i = Printf.sprintf "%s:%s:%s:%s" (show_str i.sc_subst) (show_str i.sc_pretty) (show_ostr i.sc_group) (show_ostr i.sc_help) in
+  Printf.printf "%s\tCOMPLETE\t%s\t%s\n" id (String.concat ";" (List.map show_item items)) (String.concat ";" (List.map show_op ops))
+
 let run_case (line : string) =
   match parse_sexp line with
   | L (A "shell" :: A id :: A rev :: fields) ->
+    (try run_shell id rev fields with Failure m -> Printf.printf "%s\tBADCASE\t%s\n" id m)
+  | L (A "comps" :: A id :: fields) ->
+    (try run_comps id fields with Failure m -> Printf.printf "%s\tBADCASE\t%s\n" id m)
+  | L (A "__never" :: A id :: A rev :: fields) ->
     (try run_shell id rev fields with Failure m -> Printf.printf "%s\tBADCASE\t%s\n" id m)
   | L [A "argmatch"; A id; arg; sh; lo] ->
     (try
